@@ -650,21 +650,14 @@ pub fn bj_intended(v: &BodyVals) -> Vec<(String, Fv)> {
 }
 
 /// serde_json called directly, the way dropshot calls it: one value is
-/// deserialised off the front of the buffer and `Deserializer::end()` is NOT
-/// called.  This is the parser oracle of the model.
+/// deserialised and then `Deserializer::end()` must succeed, i.e. the whole
+/// buffer is one JSON document (`serde_json::from_slice` does exactly that).
+/// This is the parser oracle of the model.
 pub fn bj_oracle(body: &[u8]) -> Option<Vec<(String, Fv)>> {
-    use serde::Deserialize;
-    let mut de = serde_json::Deserializer::from_slice(body);
-    ep::BJ::deserialize(&mut de).ok().map(|b| b.fields())
-}
-/// is the WHOLE buffer one JSON text of the type (RFC 8259: ws value ws)?
-pub fn bj_strict(body: &[u8]) -> bool {
-    serde_json::from_slice::<ep::BJ>(body).is_ok()
+    serde_json::from_slice::<ep::BJ>(body).ok().map(|b| b.fields())
 }
 pub fn tag_oracle(body: &[u8]) -> Option<Vec<(String, Fv)>> {
-    use serde::Deserialize;
-    let mut de = serde_json::Deserializer::from_slice(body);
-    ep::Tag::deserialize(&mut de).ok().map(|b| b.fields())
+    serde_json::from_slice::<ep::Tag>(body).ok().map(|b| b.fields())
 }
 
 pub fn json_case(rng: &mut Rng) -> Case {
@@ -675,12 +668,11 @@ pub fn json_case(rng: &mut Rng) -> Case {
     let ct = ct_for(rng, "application/json", true, &mut tags);
     let framing = gen_framing(rng, body.len(), &mut tags);
     let coq_in = format!(
-        "{} {} {} {} {} (Some {})",
+        "{} {} {} {} (Some {})",
         g_hdr(&ct),
         CAP,
         g_list(&frames_of(&body, &framing), |f| g_bytes(f)),
         g_opt(&bj_oracle(&body), |s| g_struct(s)),
-        bj_strict(&body),
         g_struct(&bj_intended(&v))
     );
     Case {
@@ -790,8 +782,8 @@ pub fn mp_body(rng: &mut Rng, boundary: &str, parts: &[(String, Vec<u8>)]) -> Ve
 }
 
 /// a spelling of the multipart content type.  `ows`: put optional white
-/// space where RFC 9110 allows it but the media-type parser in use does not
-/// (the known class K-MPOWS)
+/// space wherever RFC 9110 allows it (before / after a ';', also where the
+/// media-type parser behind multer does not admit it: F K9b, repaired)
 pub fn spell_multipart(rng: &mut Rng, boundary: &str, ows: bool, tags: &mut Vec<String>) -> String {
     let mut s = mix_case(rng, "multipart/form-data");
     let other = ["charset=utf-8", "x=y", "z=\"q;r\"", "a-b=\"c d\"", "CHARSET=\"UTF-8\""];
@@ -820,21 +812,13 @@ pub fn spell_multipart(rng: &mut Rng, boundary: &str, ows: bool, tags: &mut Vec<
         tags.push("mp:params-after".into());
     }
     let mut used_ows = false;
-    for p in &params {
+    for (i, p) in params.iter().enumerate() {
         let is_quoted_prev = s.ends_with('"');
-        if ows && (rng.chance(1, 2) || !used_ows) {
-            // blank before ';' (after a token: refused by the parser in use),
-            // or a TAB after it
-            if !is_quoted_prev || rng.chance(1, 2) {
-                if rng.chance(1, 2) || is_quoted_prev {
-                    s.push_str(";\t");
-                } else {
-                    s.push_str(" ;");
-                }
-                used_ows = true;
-                s.push_str(p);
-                continue;
-            }
+        if ows && (rng.chance(1, 2) || (!used_ows && i + 1 == params.len())) {
+            s.push_str(*rng.pick(&[" ;", ";\t", "\t;\t", " ; ", "  ;", "; \t ", "\t;"]));
+            used_ows = true;
+            s.push_str(p);
+            continue;
         }
         if is_quoted_prev && rng.chance(1, 3) {
             s.push(' ');
@@ -844,7 +828,7 @@ pub fn spell_multipart(rng: &mut Rng, boundary: &str, ows: bool, tags: &mut Vec<
         s.push_str(p);
     }
     if ows {
-        tags.push("class:K-MPOWS".into());
+        tags.push("mp:ows-around-semicolon".into());
     }
     s
 }
@@ -1071,10 +1055,10 @@ pub fn gen_all(server: &Server, seed: u64, thorough: bool, out: &mut dyn Write) 
         cases.push(raw_case(&mut rng, false));
         cases.push(raw_case(&mut rng, true));
     }
-    for _ in 0..110 * mul {
+    for _ in 0..80 * mul {
         cases.push(multipart_case(&mut rng, false));
     }
-    for _ in 0..12 * mul {
+    for _ in 0..42 * mul {
         cases.push(multipart_case(&mut rng, true));
     }
     for i in 0..50 * mul {
